@@ -284,14 +284,20 @@ R_VB = [f"{_RT}.createTopic_validateBasic_refines", f"{_RT}.addWriter_validateBa
         f"{_RT}.deleteWriter_validateBasic_refines", f"{_RT}.addRecord_validateBasic_refines"]
 R_SIGNERS = [f"{_RT}.createTopic_getSigners_refines", f"{_RT}.addWriter_getSigners_refines",
              f"{_RT}.deleteWriter_getSigners_refines", f"{_RT}.addRecord_getSigners_refines"]
+_RD = "Panacea.Refine.DidTypes"
+R_DIDV = [f"{_RD}.validateDID_refines", f"{_RD}.validateVMID_refines", f"{_RD}.vmValid_refines", f"{_RD}.relValid_refines",
+          f"{_RD}.validRels_refines", f"{_RD}.validateContexts_refines", f"{_RD}.docValid_refines",
+          f"{_RD}.create_validateBasic_refines", f"{_RD}.update_validateBasic_refines", f"{_RD}.deactivate_validateBasic_refines"]
 REFINE = {
     "C18": ([_RC], R_COMPKEY),
     "C01": ([_RA], R_COMPKEY + R_AOL),
     "C13": ([_RA], R_COMPKEY + R_AOL),
     "C02": ([_RA, _RT], R_AOL + R_SIGNERS),
     "C15": ([_RT], R_SIGNERS),
-    "C16": ([_RT], R_VB),
-    "C17": ([_RT, _RC], R_VB + R_SIGNERS + R_COMPKEY),
+    "C16": ([_RT, _RD], R_VB + R_DIDV),
+    "C17": ([_RT, _RC, _RD], R_VB + R_SIGNERS + R_COMPKEY + R_DIDV[-3:]),
+    "C11": ([_RD], R_DIDV[-4:]),
+    "C03": ([_RD], R_DIDV[3:5] + R_DIDV[6:7]),
 }
 REFINE_TRUSTED = [
     "translator /verif/extract/code.go (Go → Lean `do`-blocks, statement by statement; anything it does not understand becomes `Go.unsupported`, which no refinement proof survives) and the meaning of its primitives lean/Panacea/Go/{Prelude,Lib}.lean (slices as lists with bounds checks that panic, `int` as unbounded Int, uint64 wrap-around, pointers as Option with panicking dereference, KV store as a sorted association list, bech32 and the protobuf codec as parameters — the latter with the two laws of LawfulProto)",
